@@ -176,9 +176,11 @@ theorem decodeLoop_ok (app : App) (hsm : app.instrs.length < 250) (ctx : Model.C
         simp only
         split
         · exact ⟨_, rfl⟩
-        · exact ih _ { inBus with queue := q } _ (h0 + 1) hch' (by
-            show h0 + 1 + (q ++ inBus.buffer.map (·.2)).length ≤ app.instrs.length + 2
-            omega)
+        · split
+          · exact ⟨_, rfl⟩
+          · exact ih _ { inBus with queue := q } _ (h0 + 1) hch' (by
+              show h0 + 1 + (q ++ inBus.buffer.map (·.2)).length ≤ app.instrs.length + 2
+              omega)
 
 /-- an idle execute unit never panics on a runner of the class -/
 theorem euCycle_ok (app : App) (hall : ∀ i ∈ app.instrs, jInstr app i = true) (s : State) (i : Nat) (hi : i < s.eus.length)
